@@ -1,5 +1,6 @@
 import ScrapliModel.Lemmas.Request
 import ScrapliModel.Lemmas.SelfClose
+import ScrapliModel.Generated.C03Embedding
 import ScrapliModel.Lemmas.GoSem
 import ScrapliModel.Generated.BodiesRequest
 import ScrapliModel.Lemmas.BodiesRequest
@@ -444,6 +445,71 @@ theorem session_decodes_v11 (sc nh : Bool) (inners : List Bytes)
       = some (raws .v11 sc nh (sessionBodies Gen.Netconf.initialMessageID inners)) :=
   session_decodes .v11 sc nh inners
     (fun r hr => ⟨session_raws_ne_nil .v11 sc nh _ inners r hr, hsize r hr⟩)
+
+/-! ## the caller's XML is embedded verbatim -/
+
+theorem childrenOf_wrap (o c f : Bytes) : childrenOf o c (o ++ f ++ c) = some f := by
+  unfold childrenOf
+  have h1 : hasPrefix (o ++ f ++ c) o = true := by
+    rw [List.append_assoc]; exact hasPrefix_append o _
+  have h2 : hasPrefix (o ++ f ++ c).reverse c.reverse = true := by
+    have : (o ++ f ++ c).reverse = c.reverse ++ (o ++ f).reverse := by simp
+    rw [this]; exact hasPrefix_append _ _
+  have h3 : o.length + c.length ≤ (o ++ f ++ c).length := by
+    simp only [List.length_append]; omega
+  simp only [h1, h2, h3, decide_true, Bool.and_self, if_true, Option.some.injEq]
+  rw [List.append_assoc, List.drop_left]
+  have : (o ++ (f ++ c)).length - o.length - c.length = f.length := by
+    simp only [List.length_append]; omega
+  rw [this, List.take_left]
+
+/-- **filter_content_verbatim.** For EVERY caller fragment — any bytes: a fragment whose own
+top-level element is called `filter`, one that contains `</filter>`, white space, comments, CDATA,
+nothing at all — the children of the `<filter type="subtree">` element the request carries are
+exactly the caller's bytes. -/
+theorem filter_content_verbatim (filter : Bytes) :
+    childrenOf subtreeOpen filterClose (subtreeFilterElem filter) = some filter :=
+  childrenOf_wrap _ _ _
+
+/-- the same for the configuration of an edit-config and for the body of a raw rpc -/
+theorem config_content_verbatim (target config : Bytes) :
+    childrenOf (editConfigOpen target) editConfigClose (editConfigElem target config) = some config :=
+  childrenOf_wrap _ _ _
+
+theorem rpc_content_verbatim (id : Nat) (inner : Bytes) :
+    childrenOf (rpcOpenPrefix ++ (decDigits id ++ [34, GTc])) rpcClose (rpcBody id inner) = some inner := by
+  have : rpcBody id inner = (rpcOpenPrefix ++ (decDigits id ++ [34, GTc])) ++ inner ++ rpcClose := by
+    simp [rpcBody]
+  rw [this]; exact childrenOf_wrap _ _ _
+
+/-- Source fact (regenerated from driver/netconf on every run): on its way from the public method
+to the marshalled struct every caller-content parameter (filter, filter type, defaults mode, source,
+target, config, raw rpc body, persist, persist-id, xpath, period) is only compared, logged, handed
+on bare to the next builder, or stored bare in a struct field — no function of the fragment other
+than embedding. -/
+theorem embedding_clean : Gen.C03Embedding.clean = true := by decide
+
+/-- … the fragments land in the fields the model embeds, and those fields are `,innerxml` -/
+theorem embedding_sites :
+    ("buildFilterElem", "filter", "field:Payload") ∈ Gen.C03Embedding.uses
+    ∧ ("buildFilterElem", "filter", "field:Select") ∈ Gen.C03Embedding.uses
+    ∧ ("buildEditConfigElem", "config", "field:Payload") ∈ Gen.C03Embedding.uses
+    ∧ ("buildRPCElem", "filter", "pass:buildPayload#0") ∈ Gen.C03Embedding.uses
+    ∧ ("buildPayload", "payload", "field:Payload") ∈ Gen.C03Embedding.uses
+    ∧ "filterT.Payload xml:\",innerxml\"" ∈ Gen.C03Embedding.tags
+    ∧ "editConfig.Payload xml:\",innerxml\"" ∈ Gen.C03Embedding.tags
+    ∧ "message.Payload xml:\",innerxml\"" ∈ Gen.C03Embedding.tags := by
+  decide +kernel
+
+/-- … and the public methods hand their arguments and operation options on in this order -/
+theorem embedding_calls :
+    "Get: d.buildGetElem(filter, op.FilterType)" ∈ Gen.C03Embedding.calls
+    ∧ "GetConfig: d.buildGetConfigElem(source, op.Filter, op.FilterType, op.DefaultType)" ∈ Gen.C03Embedding.calls
+    ∧ "EditConfig: d.buildEditConfigElem(target, config)" ∈ Gen.C03Embedding.calls
+    ∧ "RPC: d.buildRPCElem(op.Filter)" ∈ Gen.C03Embedding.calls
+    ∧ "Commit: d.buildCommitElem(op.CommitConfirmed, op.CommitConfirmTimeout, op.CommitConfirmedPersist, op.CommitConfirmedPersistID)" ∈ Gen.C03Embedding.calls
+    ∧ "CopyConfig: d.buildCopyConfigElem(source, target)" ∈ Gen.C03Embedding.calls := by
+  decide +kernel
 
 /-! ## a session that ends early (failed call, transport write failure between two requests) -/
 
